@@ -21,6 +21,11 @@ SPECIAL = [
     # ORDER BY / LIMIT inside a derived table that is aggregated
     "SELECT COUNT(a) AS n, SUM(a) AS s FROM (SELECT a FROM t ORDER BY a DESC, b DESC, s DESC LIMIT 2) AS d",
     "SELECT COUNT(a) AS n FROM (SELECT a FROM t ORDER BY a ASC, b ASC, s ASC LIMIT 2 OFFSET 1) AS d",
+    # OFFSET as the only tail clause (SQLite needs LIMIT -1 with it, so the generator never writes it); counted, because which rows
+    # are skipped is not determined without ORDER BY
+    "SELECT COUNT(a) AS n FROM (SELECT a FROM t OFFSET 1) AS d",
+    "WITH w AS (SELECT a, c FROM u OFFSET 2) SELECT COUNT(a) AS n FROM w",
+    "SELECT COUNT(a) AS n FROM (SELECT a FROM t ORDER BY a OFFSET 1) AS d",
     # DISTINCT over an expression, IN list, BETWEEN-like conjunction
     "SELECT DISTINCT (a + b) AS x FROM t WHERE a IN (0, 2) AND b >= 0",
 ]
